@@ -1,3 +1,4 @@
+import Dashu.Gen.Round
 /-
   Model of `float/src/round.rs` and the digit utilities of `float/src/utils.rs` (core Lean only).
 
@@ -12,63 +13,46 @@
   parameter `coarse`; theorems hold for every oracle satisfying `CoarseSound`.
 -/
 namespace Dashu.Model.Float
+open Dashu
 
 inductive Mode where
   | zero | away | up | down | halfEven | halfAway
   deriving DecidableEq, Repr, Inhabited
 
-inductive Rounding where
-  | noOp | addOne | subOne
-  deriving DecidableEq, Repr, Inhabited
+/-- `round::Rounding` is the type of the regenerated tables (`Dashu.Rounding`, GluePrelude) -/
+abbrev Rounding := Dashu.Rounding
 
-def Rounding.name : Rounding → String
-  | .noOp => "NoOp" | .addOne => "AddOne" | .subOne => "SubOne"
+instance : Inhabited Rounding := ⟨.NoOp⟩
+
+def rName : Rounding → String
+  | .NoOp => "NoOp" | .AddOne => "AddOne" | .SubOne => "SubOne"
 
 /-- `impl Add<Rounding> for IBig` -/
-def Rounding.toInt : Rounding → Int
-  | .noOp => 0 | .addOne => 1 | .subOne => -1
+def rInt : Rounding → Int
+  | .NoOp => 0 | .AddOne => 1 | .SubOne => -1
 
-def applyRounding (n : Int) (r : Rounding) : Int := n + r.toInt
+def applyRounding (n : Int) (r : Rounding) : Int := n + rInt r
 
 def Mode.isHalf : Mode → Bool
   | .halfEven | .halfAway => true
   | _ => false
 
-/-- `Round::round_low_part(integer, low_sign, low_half_test)` for the six built-in modes.
-    `lowPos` is `low_sign == Sign::Positive`; `half` is the value of `low_half_test()`, i.e.
-    `|low|.cmp(1/2)`.  The code assumes `low ≠ 0`, `|low| < 1`.
-    `IBig::sign()` of zero is `Positive`; `integer.bit(0)` is the parity (two's complement). -/
-def roundLowPart (m : Mode) (n : Int) (lowPos : Bool) (half : Ordering) : Rounding :=
+/-- `Round::round_low_part(integer, low_sign, low_half_test)` for the six built-in modes: the
+    decision tables REGENERATED from `float/src/round.rs` on every run (`Dashu.Gen.round_low_part_*`,
+    proved against the definition of each mode in `Props/GenRound.lean`).
+    `half` is the value of `low_half_test()`, i.e. `|low|.cmp(1/2)`; the code assumes `low ≠ 0`,
+    `|low| < 1`. -/
+def roundLowPart (m : Mode) (n : Int) (lowSign : Sign) (half : Ordering) : Rounding :=
   match m with
-  | .zero =>
-    if n = 0 then .noOp
-    else match decide (0 ≤ n), lowPos with
-      | true, true => .noOp
-      | false, false => .noOp
-      | true, false => .subOne
-      | false, true => .addOne
-  | .away =>
-    if n = 0 then (if lowPos then .addOne else .subOne)
-    else match decide (0 ≤ n), lowPos with
-      | true, true => .addOne
-      | false, false => .subOne
-      | true, false => .noOp
-      | false, true => .noOp
-  | .down => if lowPos then .noOp else .subOne
-  | .up => if lowPos then .addOne else .noOp
-  | .halfAway =>
-    match half with
-    | .lt => .noOp
-    | .eq =>
-      if 0 ≤ n ∧ lowPos then .addOne
-      else if n ≤ 0 ∧ ¬ lowPos then .subOne
-      else .noOp
-    | .gt => if lowPos then .addOne else .subOne
-  | .halfEven =>
-    match half with
-    | .lt => .noOp
-    | .eq => if n % 2 ≠ 0 then (if lowPos then .addOne else .subOne) else .noOp
-    | .gt => if lowPos then .addOne else .subOne
+  | .zero => Gen.round_low_part_Zero n lowSign half
+  | .away => Gen.round_low_part_Away n lowSign half
+  | .up => Gen.round_low_part_Up n lowSign half
+  | .down => Gen.round_low_part_Down n lowSign half
+  | .halfEven => Gen.round_low_part_HalfEven n lowSign half
+  | .halfAway => Gen.round_low_part_HalfAway n lowSign half
+
+/-- sign of a non-zero `IBig` -/
+def signOf (v : Int) : Sign := if v < 0 then .Negative else .Positive
 
 /-- the coarse `f32` test of `round_fract`: `some o` when the estimate decides, `none` when the exact
     comparison is needed -/
@@ -84,25 +68,25 @@ def coarseNone : Coarse := fun _ _ _ => none
 /-- `Round::round_fract::<B>(integer, fract, precision)`: rounding of `integer + fract / B^k`
     (`|fract| < B^k`). -/
 def roundFract (B : Nat) (m : Mode) (c : Coarse) (n fract : Int) (k : Nat) : Rounding :=
-  if fract = 0 then .noOp
+  if fract = 0 then .NoOp
   else
     let fmag := fract.natAbs
     let test := match c B fmag k with
       | some o => o
       | none => compare (2 * fmag) (B ^ k)
-    roundLowPart m n (decide (0 < fract)) test
+    roundLowPart m n (signOf fract) test
 
 /-- `Round::round_ratio(integer, num, den)`: rounding of `integer + num / den`
     (`den ≠ 0`, `|num| ≤ |den|` asserted by the code).
     `nsign * den.sign()`; the comparison is `2|num|` vs `den` for `den > 0` and `den` vs `-2|num|`
     otherwise. -/
 def roundRatio (m : Mode) (n num den : Int) : Rounding :=
-  if num = 0 then .noOp
+  if num = 0 then .NoOp
   else
     let nmag : Int := num.natAbs
-    let lowPos := decide (0 < num) == decide (0 < den)
+    let lowSign := signOf num * signOf den
     let test := if 0 < den then compare (2 * nmag) den else compare den (-(2 * nmag))
-    roundLowPart m n lowPos test
+    roundLowPart m n lowSign test
 
 /-! ### digits -/
 
